@@ -291,6 +291,7 @@ func (ip *Interp) ruleName() string {
 
 // Run evaluates the grammar on the input.
 func Run(g *Grammar, in []byte, script map[int]*rtapi.Block, o Options) (res *Result) {
+	g = g.Effective()
 	ip := &Interp{G: g, In: in, Script: script, O: o, Pos: NewPosTable(in), active: map[string]int{}, advanced: map[int]bool{}}
 	if o.InitState && o.HasState {
 		ip.st = store{hasS: true, hasL: true}
